@@ -36,6 +36,14 @@ var c19Items = []byte{itTok, itM0, itM1, itM2, itX1, itX2, itEmit}
 type c19Layout struct {
 	Items string `json:"items"`
 	Split int    `json:"split"` // -1: one file; k: items[k:] go to a second file
+	// Where the worker met the layout (so that a replay can re-create the
+	// generations that preceded it in that process, should the failure depend
+	// on them): layout number i of c19Layouts(MaxLen, SplitUpTo), shard Shard of NShards.
+	Hist *c19Hist `json:"history,omitempty"`
+}
+
+type c19Hist struct {
+	I, Shard, NShards, MaxLen, SplitUpTo int
 }
 
 type c19Spec struct {
@@ -648,6 +656,7 @@ func c19Worker(c *mc.Ctx) {
 				c.Stats.Sample(map[string]any{"layout": l.Items, "split": l.Split, "files": sp.files, "expected_constants": append([]string{"EOF", "ERROR"}, sp.tokens...)})
 			}
 		}
+		l.Hist = &c19Hist{I: i, Shard: c.Shard, NShards: c.NShards, MaxLen: maxLen, SplitUpTo: split}
 		for _, v := range c19One(ws, l, &c.Stats) {
 			c.Stats.Violate(v)
 		}
@@ -701,6 +710,40 @@ func c19Replay(raw json.RawMessage) *mc.Violation {
 	if len(vs) == 0 {
 		c19RunCompiled(ctx, sample)
 		vs = ctx.Stats.Violations
+	}
+	if len(vs) == 0 && l.Hist != nil && l.Hist.NShards > 0 {
+		// Alone, in a fresh process, the layout passes: re-create the history of
+		// the worker that reported it (the layouts of its shard, in order).
+		h := l.Hist
+		hc := &mc.Ctx{Shard: h.Shard, NShards: h.NShards}
+		if h.MaxLen > 4 {
+			hc.Tier = "thorough"
+		}
+		c19Scale(hc, ws) // the worker's first generations
+		for j, lj := range c19Layouts(h.MaxLen, h.SplitUpTo) {
+			if j > h.I {
+				break
+			}
+			if !hc.Mine(int64(j)) {
+				continue
+			}
+			var got []mc.Violation
+			got = append(got, c19One(ws, lj, &hc.Stats)...)
+			if lj.Split >= 0 {
+				pipe.ReverseCreate = true
+				got = append(got, c19One(ws, lj, &hc.Stats)...)
+				pipe.ReverseCreate = false
+			}
+			// (the worker's process had also compiled samples and merged counters in
+			// between, so the first layout to fail in the re-created history need
+			// not be the recorded one: any failure on the way there reproduces the
+			// dependence on earlier generations)
+			if len(got) > 0 {
+				v := got[0]
+				v.Kind += "-after-earlier-generations-in-the-process"
+				return &v
+			}
+		}
 	}
 	if len(vs) == 0 {
 		return nil
